@@ -32,8 +32,12 @@ InLowestTerms(r) == r[2] > 0 /\ GCD(r[1], r[2]) = 1
 -----------------------------------------------------------------------------
 (* decimal texts:  [-+]digits[.digits]  ->  [m |-> mantissa (signed), e |-> places] *)
 IsDig(c) == c >= 48 /\ c <= 57
+(* TLC's integers are 32-bit: a number with a mantissa of 2 * 10^9 or more, or more than nine decimal places, is *)
+(* reported as `big` (the specification does not evaluate it) instead of overflowing                                *)
 RECURSIVE DigVal(_, _, _)
-DigVal(s, i, acc) == IF i > Len(s) THEN acc ELSE DigVal(s, i + 1, acc * 10 + (s[i] - 48))
+DigVal(s, i, acc) == IF i > Len(s) THEN acc
+                     ELSE IF acc >= 200000000 THEN -1
+                     ELSE DigVal(s, i + 1, acc * 10 + (s[i] - 48))
 ParseDecimal(t0) ==
   LET t == Strip(t0)
       neg == t # <<>> /\ t[1] = 45
@@ -42,8 +46,9 @@ ParseDecimal(t0) ==
       ip == IF dots = <<>> THEN body ELSE Sub(body, 1, dots[1] - 1)
       fp == IF dots = <<>> THEN <<>> ELSE Sub(body, dots[1] + 1, Len(body))
       ok == body # <<>> /\ Len(dots) <= 1 /\ (ip \o fp) # <<>> /\ \A i \in DOMAIN (ip \o fp) : IsDig((ip \o fp)[i])
-      mag == DigVal(ip \o fp, 1, 0)
-  IN [ok |-> ok, m |-> IF neg THEN -mag ELSE mag, e |-> Len(fp)]
+      mag == IF ok THEN DigVal(ip \o fp, 1, 0) ELSE 0
+      big == ok /\ (mag < 0 \/ Len(fp) > 9)
+  IN [ok |-> ok, m |-> IF big THEN 0 ELSE IF neg THEN -mag ELSE mag, e |-> IF big THEN 0 ELSE Len(fp), big |-> big]
 RECURSIVE Pow10(_)
 Pow10(e) == IF e = 0 THEN 1 ELSE 10 * Pow10(e - 1)
 DecimalAsRat(dm) == Norm(<<dm.m, Pow10(dm.e)>>)
@@ -52,14 +57,18 @@ RECURSIVE NormDec(_)
 NormDec(x) == IF x.e > 0 /\ x.m % 10 = 0 THEN NormDec([m |-> x.m \div 10, e |-> x.e - 1]) ELSE [m |-> x.m, e |-> x.e]
 SameDecimal(a, b) == NormDec(a) = NormDec(b)          \* (no cross-multiplication: TLC integers are 32-bit)
 
-(* "beat=value, beat=value" -> sequence of [k (ticks), v (decimal)], or a failure *)
+(* "beat=value, beat=value" -> sequence of [k (ticks), v (decimal)], or a failure; `big`: some number of the text *)
+(* is too large for this specification to evaluate (see ParseDecimal; beats beyond 4 * 10^7 thousandths likewise)   *)
 ParseEvents(text) ==
-  IF IsNone(text) \/ AllSpace(text) THEN [ok |-> TRUE, evs |-> <<>>]
+  IF IsNone(text) \/ AllSpace(text) THEN [ok |-> TRUE, evs |-> <<>>, big |-> FALSE]
   ELSE LET rows == SplitOn(text, COMMA)
            parts(i) == SplitOn(Strip(rows[i]), EQ)
            okRow(i) == Len(parts(i)) = 2 /\ ParseDecimal(parts(i)[1]).ok /\ ParseDecimal(parts(i)[2]).ok
-       IN IF \E i \in DOMAIN rows : ~okRow(i) THEN [ok |-> FALSE, evs |-> <<>>]
-          ELSE [ok |-> TRUE,
+           bigRow(i) == okRow(i) /\ (ParseDecimal(parts(i)[1]).big \/ ParseDecimal(parts(i)[2]).big
+                                     \/ Abs(ParseDecimal(parts(i)[1]).m) > 40000000)
+       IN IF \E i \in DOMAIN rows : ~okRow(i) THEN [ok |-> FALSE, evs |-> <<>>, big |-> FALSE]
+          ELSE IF \E i \in DOMAIN rows : bigRow(i) THEN [ok |-> TRUE, evs |-> <<>>, big |-> TRUE]
+          ELSE [ok |-> TRUE, big |-> FALSE,
                 evs |-> [i \in DOMAIN rows |-> [k |-> NearestTick(DecimalAsRat(ParseDecimal(parts(i)[1]))),
                                                 v |-> ParseDecimal(parts(i)[2])]]]
 =============================================================================
